@@ -254,6 +254,14 @@ impl Report {
         let mut known_keys: Vec<String> = vec![];
         let mut new_keys: Vec<String> = vec![];
         let dir = format!("{}/replays/{}", verif_dir(), self.id);
+        // replay files of earlier runs are stale
+        if let Ok(rd) = std::fs::read_dir(&dir) {
+            for e in rd.flatten() {
+                if e.path().extension().map_or(false, |x| x == "json") {
+                    let _ = std::fs::remove_file(e.path());
+                }
+            }
+        }
         for (key, (count, vs)) in viol.iter() {
             let known = findings
                 .iter()
